@@ -122,6 +122,9 @@ func verifWitness() (uuid.UUID, mysql.Tag, int64) {
 }
 
 // H_C13_relations: behind-or-equal ⇔ ⊆ ; ahead ⇔ ¬⊆.
+// H_C13_relations_tags: the same obligation over one server UUID with two tag keys.
+func H_C13_relations_tags() { H_C13_relations() }
+
 func H_C13_relations() {
 	slave := verifSet("s")
 	master := verifSet("m")
